@@ -160,6 +160,10 @@ func c38(c *hx.Ctx) {
 		ae, uniq := c.Rng.Intn(2) == 0, c.Rng.Intn(2) == 0
 		var ids []protocol.ID
 		var err error
+		if i < 6 {
+			l = [][]string{{"a", "b", "a"}, {"b", "a", "b", "a"}, {"a", "", "b", "", "a"}, {"p/x", "a", "p/x", "b", "a"}, {"a", "a", "b", "a"}, {"€", "a", "€"}}[i]
+		}
+		lcopy := append([]string{}, l...)
 		pn, _ := hx.Catch(func() {
 			if uniq {
 				ids, err = confparse.ParseProtocolIDsUnique(l, ae)
@@ -176,6 +180,9 @@ func c38(c *hx.Ctx) {
 		desc := map[string]any{"parser": "ParseProtocolIDs", "list": l, "allow_empty": ae, "unique": uniq, "err": fmt.Sprint(err)}
 		if pn {
 			c.Failf("protocol-ids-panic", desc, "panicked")
+		}
+		if fmt.Sprintf("%q", l) != fmt.Sprintf("%q", lcopy) {
+			c.Failf("protocol-ids-mutates-input", desc, "the argument slice was modified: %q", l)
 		}
 		if err == nil && uniq {
 			seen := map[protocol.ID]bool{}
@@ -243,7 +250,21 @@ func c38(c *hx.Ctx) {
 	for i := 0; i < 2*unit; i++ {
 		n := c.Rng.Intn(9)
 		entries := make([]string, n)
-		for j := range entries {
+		if i < 12 {
+			// crafted: non-adjacent duplicates, interleaved peers, padded repeats
+			P, Q := peers[i%3], peers[(i+1)%3]
+			crafted := [][]string{
+				{P + "|t|a", P + "|t|b", P + "|t|a"},
+				{P + "|t|b", P + "|t|a", P + "|t|b", P + "|t|a"},
+				{P + "|t|a", Q + "|t|a", P + "|t|a", Q + "|t|b", P + "|t|a"},
+				{P + "| t|a", P + "|t|b", " " + P + " |t|a ", P + "|u|a", P + "|t|a\t"},
+				{P + "|t|b", P + "|t|a|x", P + "|t|a", P + "|t|b", P + "|t|a|x", P + "|t|a"},
+				{P + "|t|a", "garbage", P + "|t|a", Q + "|noinner", P + "|t|a"},
+			}
+			entries = append([]string{}, crafted[i%len(crafted)]...)
+			n = 0
+		}
+		for j := 0; j < n; j++ {
 			p := peers[c.Rng.Intn(len(peers))]
 			a := addrs[c.Rng.Intn(len(addrs))]
 			w := func() string { return ws[c.Rng.Intn(len(ws))] }
@@ -267,6 +288,9 @@ func c38(c *hx.Ctx) {
 		in := append([]string{}, entries...)
 		pn, _ := hx.Catch(func() { m, errs = tptaddr_static.ParsePeerAddressMap(in) })
 		desc := map[string]any{"parser": "ParsePeerAddressMap", "entries": entries, "result": m, "errors": len(errs)}
+		if fmt.Sprintf("%q", in) != fmt.Sprintf("%q", entries) {
+			c.Failf("addrmap-mutates-input", desc, "ParsePeerAddressMap modified its argument slice: %q", in)
+		}
 		if pn {
 			c.Failf("addrmap-panic", desc, "ParsePeerAddressMap panicked")
 			continue
@@ -523,6 +547,25 @@ func c38(c *hx.Ctx) {
 					c.Failf("peerid-roundtrip", desc, "parse(format(parse s)) = %q, %v", id2.String(), err2)
 				}
 				c.Nontrivial("pid" + s)
+			}
+			// ParsePeerIDsUnique: non-adjacent duplicates collapse, argument untouched
+			{
+				in := []string{peers[0], peers[1], " " + peers[0], "", peers[1], peers[0]}
+				cp := append([]string{}, in...)
+				out, uerr := confparse.ParsePeerIDsUnique(in, true)
+				if uerr != nil || len(out) != 2 || out[0].String() != peers[0] || out[1].String() != peers[1] {
+					c.Failf("peerids-unique", desc, "ParsePeerIDsUnique(%q) = %v, %v", in, out, uerr)
+				}
+				if fmt.Sprintf("%q", in) != fmt.Sprintf("%q", cp) {
+					c.Failf("peerids-mutates-input", desc, "ParsePeerIDsUnique modified its argument")
+				}
+				pem := []byte("-----BEGIN GARBAGE-----\nAAAA\n-----END GARBAGE-----\n" + s)
+				pcp := append([]byte{}, pem...)
+				_, _ = confparse.ParsePublicKeyPEM(pem)
+				_, _ = confparse.ParsePrivateKeyPEM(pem)
+				if string(pem) != string(pcp) {
+					c.Failf("pem-mutates-input", desc, "a PEM parser modified its argument bytes")
+				}
 			}
 			// list forms and keys: totality only
 			if pn2, _ := hx.Catch(func() {
